@@ -9,7 +9,7 @@ use aranya_crypto::{
 };
 use proptest::prelude::*;
 use serde::{Deserialize, Serialize};
-use vcommon::{CaseInfo, CheckResult, Ctx, Failure, Report, ensure, fail, idx};
+use vcommon::{CaseInfo, CheckResult, Ctx, Failure, Report, ensure, fail};
 
 use crate::util::{CS, engine, fill};
 
@@ -305,7 +305,12 @@ fn run_ops<B: Backend>(b: &B, ops: &[Op], info: &mut CaseInfo, avoid_reread: boo
                 }
             }
         }
-        check_listing(b, &m, &at)?;
+        if B::MULTI {
+            check_listing(b, &m, &at)?;
+        } else {
+            // in memory a full read-back after every op is cheap
+            check_all(b, &handles, &m, &at)?;
+        }
     }
     check_all(b, &handles, &m, "end")?;
     if B::MULTI {
@@ -488,18 +493,17 @@ fn xcase() -> impl Strategy<Value = XCase> {
 }
 
 pub fn run(ctx: &Ctx) -> ! {
-    let _ = idx(0, 1);
     let mut rep = Report::new(ctx, "exploration");
-    rep.assume("the stored value is a harness-defined serde type implementing WrappedKey (id, tag, 0..5000 data bytes in memory, 0..400 on the file system); the stores are generic over the wrapped key type");
+    rep.assume("the stored value is a harness-defined serde type implementing WrappedKey (id, tag, 0..1500 data bytes in memory, 0..400 on the file system); the stores are generic over the wrapped key type");
     rep.assume("single process, single thread: an entry borrows its store mutably, so entry/insert/get/remove/drop are atomic per handle; two handles on one directory are used alternately, never with an entry held open on the other handle (that would block on flock in one thread)");
     rep.assume("fs store directories are per-case temp dirs on /dev/shm when it exists (else the default temp dir); the `__canary` file the store creates when debug assertions are on is not counted as a leftover");
     rep.explore(
         "memstore_model",
         "op sequences (len 1..60) over 6 ids (all-zero, all-0xff, near-zero, two ids differing in the last bit): entry -> vacant \
-         {insert | drop} / occupied {0..3 reads, then remove | drop}, get, try_insert (incl. duplicates), remove; vs a HashMap model \
-         after every op. non-trivial = >=1 vacant entry dropped and >=1 duplicate insert",
-        || prop::collection::vec(op(3, 5000), 1..60),
-        ctx.pick(30_000, 1_000_000),
+         {insert | drop} / occupied {0..3 reads, then remove | drop}, get, try_insert (incl. duplicates), remove; vs a HashMap model, \
+         with a read-back of all 6 ids after every op. non-trivial = >=1 vacant entry dropped and >=1 duplicate insert",
+        || prop::collection::vec(op(3, 1500), 1..60),
+        ctx.pick(20_000, 500_000),
         check_mem,
     );
     rep.explore(
@@ -511,7 +515,7 @@ pub fn run(ctx: &Ctx) -> ! {
          finally all handles are closed and the directory is opened afresh. non-trivial = >=1 vacant entry dropped, >=1 duplicate \
          insert and >=1 reopen of a non-empty store",
         || prop::collection::vec(op(3, 400), 1..40),
-        ctx.pick(4_000, 120_000),
+        ctx.pick(4_000, 80_000),
         check_fs,
     );
     rep.explore(
@@ -519,7 +523,7 @@ pub fn run(ctx: &Ctx) -> ! {
         "the shape left out of fs_store_model: short sequences (len 1..14) in which an occupied fs entry is read up to 3 times and \
          then removed or dropped; same model, directory oracle and non-trivial rule as fs_store_model",
         || prop::collection::vec(op(3, 400), 1..14),
-        ctx.pick(1_200, 30_000),
+        ctx.pick(1_200, 24_000),
         check_fs_reread,
     );
     rep.explore(
@@ -527,14 +531,14 @@ pub fn run(ctx: &Ctx) -> ! {
         "KeyStoreExt::insert_key/get_key/remove_key with a seeded DefaultEngine and real SigningKey/EncryptionKey/GroupKey (2 each) on \
          MemStore vs a presence model; returned keys must have the inserted key's id. non-trivial = >=2 successful reads",
         xcase,
-        ctx.pick(1_000, 30_000),
+        ctx.pick(1_000, 20_000),
         |c, i| run_ext(&Mem, c, i),
     );
     rep.explore(
         "ext_real_keys_fs",
         "same on fs_keystore::Store with reopen; directory entry count must equal the number of stored keys after every op",
         xcase,
-        ctx.pick(1_000, 30_000),
+        ctx.pick(1_000, 20_000),
         |c, i| run_ext(&Fs::new(), c, i),
     );
     rep.finish()
